@@ -78,7 +78,11 @@ def h_cert(eng, case):
         conv = lambda x: x
         key_name_in = key_name
     pk = case['pubkey']
-    if isinstance(pk, int) and pk <= 3:
+    el = pk == 'elastic'
+    if el:
+        # the LENGTH of the public key is a solver variable (opaque content; symex/elastic.py)
+        pub, publen = eng.elastic('pub', 0, case['max'])
+    elif isinstance(pk, int) and pk <= 3:
         pub = eng.bytes('pub', pk)
     else:
         pub = bytes((i * 7 + 1) & 0xFF for i in range(pk))
@@ -129,7 +133,15 @@ def h_cert(eng, case):
     except Exception as e:
         eng.fail('cert-produced', exc_sig(e), repr(e)[:150])
         return
-    w = blist(wire)
+    if el:
+        from .c01 import elastic_split
+        w = elastic_split(eng, wire, 6, 0x15, pub, 'cert-wellformed')
+        if w is None:
+            return
+        pub_seen = b''                      # the surrogate packet carries an empty Content in place of the key
+    else:
+        w = blist(wire)
+        pub_seen = pub
     try:
         rv = ref.parse_cert(w)
         ok, tree = ref.strict_tree(w, 0, len(w), [('data', 6, 'model', (ref.CERT, False))])
@@ -151,7 +163,7 @@ def h_cert(eng, case):
         # the version is the clock reading handed out by the stub (exactly one read)
         eng.observe('version', v)
     eng.check(env.names_equal(name, rn), 'returned-name-is-the-certificate-name')
-    eng.check('content' in rv and beq(rv['content'], pub), 'cert-content-is-the-key')
+    eng.check('content' in rv and beq(rv['content'], pub_seen), 'cert-content-is-the-key')
     mi = rv.get('meta_info') or {}
     eng.check(mi.get('content_type') == 2, 'cert-content-type-key')
     si = rv.get('signature_info') or {}
@@ -169,8 +181,9 @@ def h_cert(eng, case):
     except Exception as e:
         eng.fail('cert-parses', exc_sig(e), repr(e)[:150])
         return
-    eng.check(env.names_equal(n2, rn) and beq(c2, pub), 'cert-parses')
-    eng.check(env.names_equal(cert.name, rn) and beq(cert.content, pub), 'cert-parses')
+    same = (lambda c: c is not None and (c == pub)) if el else (lambda c: beq(c, pub))
+    eng.check(And(env.names_equal(n2, rn), same(c2)), 'cert-parses')
+    eng.check(And(env.names_equal(cert.name, rn), same(cert.content)), 'cert-parses')
     eng.check(beq(cert.signature_info.validity_period.not_before, exp_nb) and
               beq(cert.signature_info.validity_period.not_after, exp_na), 'cert-parses', sig='validity-after-parse')
     try:
@@ -188,6 +201,12 @@ def h_cert(eng, case):
         eng.fail('cert-verifies', exc_sig(e))
         return
     eng.check(okv is True, 'cert-verifies', {'verify': repr(okv)})
+    if el:
+        from symex.core import s_len
+        eng.observe('key_octets', publen)
+        eng.observe('cert_octets', s_len(wire))
+        eng.reach('end')
+        return
     regions = []
     if 'sigvalue' in rv['#region']:
         _, vs, ve = rv['#region']['sigvalue']
@@ -235,6 +254,12 @@ def cases(tier, seed):
                   ['KEY', 'KEY', 'KEY', 's'], ['s', 'KEY', 'KEY', 's', 's']):
         for mode in ('new', 'derive_text', 'derive_comp', 'self', 'sign_req'):
             cs.append(('cert', dict(base, mode=mode, key_shape=shape, signer='hmac'), {'weight': 3}))
+    # public key of solver-chosen LENGTH (elastic buffer): every key size at once
+    for kind, rmin in (('ecdsa', 69), ('hmac', 0), ('rsa', 0), ('ed25519', 0), ('digest', 0)) if quick else \
+            (('ecdsa', 32), ('hmac', 0), ('rsa', 0), ('ed25519', 0), ('digest', 0), ('ecdsa384', 100)):
+        for mode in ('new', 'derive_text') if quick else ('new', 'derive_text', 'derive_comp', 'self', 'sign_req'):
+            cs.append(('cert', dict(base, pubkey='elastic', max=70000 if quick else 2 ** 20, signer=kind, mode=mode,
+                                    rmin=rmin), {'weight': 30}))
     # components handed over as memoryview / bytearray (e.g. taken from a parsed certificate name)
     for rep in ('mv', 'ba'):
         for mode in ('new', 'derive_text', 'derive_comp', 'self', 'sign_req'):
